@@ -35,6 +35,7 @@ type RigConfig struct {
 	RealHTTP bool `json:"real_multiop_queryer"` // MultiOpQueryer + HTTP bridge between executor and fakes
 	MaxBatch int  `json:"max_batch_size,omitempty"`
 	Subs     bool `json:"subscriptions,omitempty"` // graphql-ws upstream per service, gateway behind a real HTTP server
+	StallMs  int  `json:"stall_first_long_frame_ms,omitempty"` // client connections stall once between header and payload of a frame
 }
 
 func (c RigConfig) String() string {
@@ -184,7 +185,11 @@ func NewRig(w *gen.World, cfg RigConfig) (*Rig, error) {
 	}
 	r.GW = gw
 	if cfg.Subs {
-		r.GWSrv = httptest.NewServer(http.HandlerFunc(gw.Handler))
+		r.GWSrv = httptest.NewUnstartedServer(http.HandlerFunc(gw.Handler))
+		if cfg.StallMs > 0 {
+			r.GWSrv.Listener = fake.StallListener{Listener: r.GWSrv.Listener, Hold: time.Duration(cfg.StallMs) * time.Millisecond}
+		}
+		r.GWSrv.Start()
 	}
 	return r, nil
 }
